@@ -50,7 +50,15 @@ out += ["", "### 12.3 Behaviour-preserving refactorings (`selftest/benign/`, run
         "pydantic model_validator / classmethod validators, target_column= / output_path= / encoding= and file_standardize_* for "
         "tables, a frozen hashable Triple with sorted / de-duplicated writing, a TSV loader and stream targets for the writers, "
         "luid_pattern= and discover_uri_prefixes, predicates= / default_content_type= / route= for the mapping service, "
-        "require_prefix= and w3c_validation=. All twenty quick checks are run "
+        "require_prefix= and w3c_validation=. Seventh batch (nearA..D): changes placed deliberately on the boundary of a property - what a hasty "
+        "reader might think is promised and the wording does not promise: add_prefix no longer calling add_record (a shared private "
+        "helper, arguments validated, repeated synonyms stored once, new message texts), records kept sorted and synonyms kept in arrival "
+        "order, frozenset / MappingProxyType views and a lazily built trie, chain building its result with private look-up tables and "
+        "returning sorted records, reconciliation validating before copying and raising CycleDetected first, discover counting with a "
+        "Counter and rejecting an empty-string delimiter, lexicographic tie-breaking among equally short URI prefixes of a reverse map, "
+        "another file layout for every writer, file operations streaming through a temporary file with os.replace, references "
+        "enforcing immutability with __setattr__ / __delattr__ (AttributeError instead of ValidationError), one framework-independent "
+        "core behind both web services with another 422 body, w3c.py without regular expressions. All twenty quick checks are run "
         "against each; any exit code other than 0 is an alarm.", "",
         "| refactoring | repository tests | checks raising an alarm |", "|---|---|---|"]
 for r in bres:
